@@ -733,7 +733,9 @@ func (d *BasicDirectory) getEffectiveShardingSize() int {
 
 func (d *BasicDirectory) needsToSwitchToHAMTDir(name string, nodeToAdd ipld.Node) (bool, error) {
 	shardingSize := d.getEffectiveShardingSize()
-	if shardingSize == 0 { // Option disabled.
+	// A zero threshold disables size-based switching. SizeEstimationDisabled
+	// ignores HAMTShardingSize altogether: only MaxLinks counts there.
+	if shardingSize == 0 && d.GetSizeEstimationMode() != SizeEstimationDisabled {
 		return false, nil
 	}
 
@@ -1129,7 +1131,9 @@ func (d *HAMTDirectory) removeFromSizeChange(name string, linkCid cid.Cid) {
 // nodeToAdd is nil). We compute both (potential) future subtraction and
 // addition to the size change.
 func (d *HAMTDirectory) needsToSwitchToBasicDir(ctx context.Context, name string, nodeToAdd ipld.Node) (switchToBasic bool, err error) {
-	if d.getEffectiveShardingSize() == 0 { // Option disabled.
+	// A zero threshold disables size-based switching. SizeEstimationDisabled
+	// ignores HAMTShardingSize altogether: only MaxLinks counts there.
+	if d.getEffectiveShardingSize() == 0 && d.GetSizeEstimationMode() != SizeEstimationDisabled {
 		return false, nil
 	}
 
